@@ -305,7 +305,7 @@ PROPS = {
         "families": [{"name": "witness"}, {"name": "raw"}, {"name": "decl"}, {"name": "frame"}, {"name": "miri"}],
         "tags": {"miri": "direct", "witness": "direct", "witness-control": "indirect", "witness-model": "indirect", "invent": "direct",
                  "dec-panic": "direct", "dec-alloc": "direct", "memory": "direct", "frame-alloc": "direct", "abs-diff": "indirect"},
-        "rule": "12 safe-Rust programs under #![forbid(unsafe_code)] (9 that must be rejected by the compiler, 3 well-scoped controls) compiled "
+        "rule": "14 safe-Rust programs under #![forbid(unsafe_code)] (11 that must be rejected by the compiler — 9 lifetime escapes, 2 contexts sent to another thread — and 3 well-scoped controls) compiled "
                 "against the working tree; the ref-table ones also run through the Lean ownership machine; raw / tampered inputs for every "
                 "array, byte-vector and derived target compared with the reference decoder (a decoder that returned uninitialised or foreign "
                 "memory shows as a value the reference does not assign); damaged compressed frames must yield exactly what their compressed "
